@@ -24,7 +24,10 @@ CONSTANTS MaxR,       \* padded reference length(s): rows of length 1..MaxR
           Tokens,     \* non-eos tokens (small naturals > 0)
           CostSet,    \* set of <<ins, del, sub>> positive integers
           Modes,      \* subset of {"none", "excl", "incl"} (eos unset / eos not counted / counted)
-          CheckDecl   \* TRUE: also evaluate the (expensive) declarative completion sets
+          CheckDecl,  \* TRUE: also evaluate the (expensive) declarative completion sets
+          Given,      \* <<>>: every pair of rows (exhaustive); else a sequence of <<ref row, hyp row>> chosen by the
+                      \* harness (LONG strings: the row machine alone is the oracle there, see EditDistance_long.cfg)
+          WithRange   \* TRUE: the export carries the edit-count interval over ALL optimal alignments (exponential)
 
 Eos == 0
 Symbols == Tokens \cup {Eos}
@@ -130,8 +133,9 @@ Obs(kk, rw, cw, mw) ==
 Init ==
   /\ mode \in Modes
   /\ c \in CostSet
-  /\ ref \in Rows(MaxR)
-  /\ hyp \in Rows(MaxH)
+  /\ IF Given = <<>>
+     THEN ref \in Rows(MaxR) /\ hyp \in Rows(MaxH)
+     ELSE \E g \in 1..Len(Given) : ref = Given[g][1] /\ hyp = Given[g][2]
   /\ k = 0
   /\ row = [r \in 0..Len(ref) |-> r * (IF c[1] = c[2] /\ c[2] = c[3] THEN 1 ELSE c[2])]
   /\ crow = row
@@ -199,7 +203,10 @@ Export ==
   k = H =>
     Emit([ref |-> ref, hyp |-> hyp, mode |-> mode, c |-> c, reflen |-> RefLen, hyplen |-> HypLen,
           out |-> [i \in 1..Len(out) |->
-                     LET er == EditRange(RefEff, SubSeq(hyp, 1, IF i - 1 <= HypLen THEN i - 1 ELSE HypLen), c)
+                     LET er == IF WithRange
+                               THEN EditRange(RefEff, SubSeq(hyp, 1, IF i - 1 <= HypLen THEN i - 1 ELSE HypLen), c)
+                               ELSE IF Uniform THEN <<out[i].edits, out[i].edits>>   \* equal costs: the count is unique
+                               ELSE <<0, Len(ref) + Len(hyp)>>                       \* not computed: trivial bounds
                      IN [cost |-> out[i].cost, edits |-> out[i].edits, lo |-> er[1], hi |-> er[2],
                          next |-> SetToSeq(out[i].next), valid |-> out[i].valid]]])
 =============================================================================
